@@ -12,7 +12,7 @@ from props import c05
 def mutants(r, text, quick):
     n = len(text)
     out = []
-    cuts = range(n) if n <= (160 if quick else 600) else sorted(set(r.randrange(n) for _ in range(160 if quick else 600)))
+    cuts = range(n) if n <= (160 if quick else 400) else sorted(set(r.randrange(n) for _ in range(160 if quick else 400)))
     for k in cuts: out.append(text[:k])
     for _ in range(30 if quick else 120):
         m = bytearray(text)
@@ -28,6 +28,16 @@ def mutants(r, text, quick):
         else:
             m = m[:i] + bytearray(r.randbytes(r.randint(1, 8))) + m[i:]
         out.append(bytes(m))
+    # union type codes given as numbers, also codes no member has, mostly under skip_unknown (entries with their own parser flags)
+    for m_ in list(re.finditer(rb'"f\d+x_type"\s*:\s*\[([^\]]*)\]', text))[:6]:
+        elems = m_.group(1).split(b",")
+        if elems == [b""] or not elems: continue
+        for code in (b"9", b"200", b"1", b"0", b"255", b"2"):
+            e2 = list(elems); e2[r.randrange(len(e2))] = code
+            out.append((text[:m_.start(1)] + b",".join(e2) + text[m_.end(1):], r.choice([1, 1, 1, 9, 3, 0])))
+    for m_ in list(re.finditer(rb'"f\d+x_type"\s*:\s*("[A-Za-z0-9_]+")', text))[:6]:
+        for code in (b"9", b"200", b"1", b"0"):
+            out.append((text[:m_.start(1)] + code + text[m_.end(1):], r.choice([1, 1, 1, 9, 3, 0])))
     for depth in (10, 100, 600, 5000):
         out.append(b'{"zz":' * depth + b'1' + b'}' * depth)
         out.append(b'{"zz":' + b'[' * depth + b']' * depth + b'}')
@@ -49,20 +59,57 @@ def make_mutate(quick):
                 except ValueError:
                     pass
         r.shuffle(texts)
-        texts = texts[:4 if quick else 12]
+        # hundreds of prefixes of a 100 KB text are hundreds of MB of protocol lines per schema: long texts get a share of one
+        short = [t for t in texts if len(t[1]) <= 6000]
+        texts = (short[:(4 if quick else 8) - 1] + [t for t in texts if len(t[1]) > 6000][:1]) if short else texts[:1]
         lines, kinds = [], []
         for (ti, text, pf) in texts:
             control = "parse %d 0 %s" % (ti, text.hex())
             lines.append(control); kinds.append(("control", len(text)))
             for k, m in enumerate(mutants(r, text, quick)):
                 jf = r.choice([0, 0, 1, 2, 3, 4, 8, 16, 31, r.getrandbits(5)])
+                if isinstance(m, tuple): m, jf = m
                 lines.append("parse %d %d %s" % (ti, jf, m.hex() or "-")); kinds.append(("mutant", len(m)))
                 if k % 50 == 49:
                     lines.append(control); kinds.append(("control", len(text)))
             lines.append(control); kinds.append(("control", len(text)))
         rc, out, err = run_lines([prog, "parse"], lines, timeout=600, sticky=None)
-        return dict(lines=lines, kinds=kinds, out=out, err=err[-3000:])
+        # judged here, per schema: only the failures and the counts are kept (all lines of all schemas at once took tens of GB in the thorough tier)
+        return judge_mut(lines, kinds, out, err[-3000:])
     return mutate
+
+
+def judge_mut(lines, kinds, out, err):
+    bad, nmut, nok, nerr, errs = [], 0, 0, 0, {}
+    control_dump = None
+    for li, (l, (kind, n), o) in enumerate(zip(lines, kinds, out)):
+        det = dict(op=l[:6000], output=o[:1500], text=bytes.fromhex(l.split(" ")[3]).decode("latin1")[:1500] if l.split(" ")[3] != "-" else "",
+                   history_same_builder=[(x[:400], y[:80]) for x, y in zip(lines[max(0, li - 6):li], out[max(0, li - 6):li])])
+        if o.startswith("<crash") or o.startswith("<skipped") or o.startswith("<no-output"):
+            det["stderr"] = err
+            bad.append(("parser faulted (read outside the given bytes, sanitizer report, or hang) on this input", det)); continue
+        if kind == "control":
+            if not o.startswith("pok verify=0"):
+                bad.append(("after earlier failed parses the same builder no longer parses a valid text", det))
+            elif control_dump is not None and control_dump[0] == l and control_dump[1] != o:
+                bad.append(("the same text parses to a different buffer after failed parses", det))
+            control_dump = (l, o)
+            continue
+        nmut += 1
+        if o.startswith("pok"):
+            nok += 1
+            if not o.startswith("pok verify=0"):
+                bad.append(("parser reports success but the generated verifier rejects the buffer", det))
+        elif o.startswith("perr="):
+            nerr += 1
+            mm = re.match(r"perr=(-?\d+) loc=(-?\d+)", o)
+            e, loc = int(mm.group(1)), int(mm.group(2))
+            errs[e] = errs.get(e, 0) + 1
+            if e == 0: bad.append(("parser returns failure without an error code", det))
+            if not (0 <= loc <= n): bad.append(("reported error location %d lies outside the input of %d bytes" % (loc, n), det))
+        else:
+            bad.append(("unexpected harness output", det))
+    return dict(bad=bad[:50], nbad=len(bad), nmut=nmut, nok=nok, nerr=nerr, errs=errs)
 
 
 def jscan_stage(ctx, ths):
@@ -150,6 +197,53 @@ def chararr_stage(ctx, ths):
     return {"chararr_lines": len(lines), "chararr_results": res, "chararr_disagreements": len(idx), "chararr_print_parse_roundtrips": len(rl)}
 
 
+NESTED_RAW_C = r'''
+#include <stdio.h>
+#include <string.h>
+#include "nr_builder.h"
+#include "nr_verifier.h"
+#include "nr_json_parser.h"
+int main(void) {
+    flatcc_builder_t b, *B = &b; flatcc_json_parser_t jc; int k;
+    const char *texts[] = {"{\"n\":[1,2]}", "{\"m\":[1,2,3]}", "{\"n\":[8,0,0,0,0,0,0,0,7,0,0,0]}", "{\"n\":{\"a\":7}}", "{\"m\":{\"n\":{\"a\":7}}}"};
+    flatcc_builder_init(B);
+    for (k = 0; k < 5; ++k) {
+        void *buf; size_t size; int rc;
+        flatcc_builder_reset(B); memset(&jc, 0, sizeof jc);
+        rc = NR_T_parse_json_as_root(B, &jc, texts[k], strlen(texts[k]), 0, 0);
+        if (rc) { printf("%d perr=%d\n", k, jc.error); continue; }
+        buf = flatcc_builder_finalize_aligned_buffer(B, &size);
+        printf("%d pok verify=%d\n", k, buf ? NR_T_verify_as_root(buf, size) : -1);
+        if (buf) flatcc_builder_aligned_free(buf);
+    }
+    flatcc_builder_clear(B);
+    return 0;
+}
+'''
+
+
+def nested_raw_stage(ctx, flatcc, rt):
+    """a nested_flatbuffer field given as a plain array of bytes (accepted syntax for a [ubyte] field): the parser stores the bytes unchecked, so a
+    successful parse can yield a buffer the generated verifier rejects. Returns the list of (text index, output) with success + verifier rejection."""
+    d = os.path.join(ctx.work, "nraw"); os.makedirs(d, exist_ok=True)
+    open(os.path.join(d, "nr.fbs"), "w").write('namespace NR;\nstruct S { a:int; }\ntable T { n:[ubyte] (nested_flatbuffer: "S"); m:[ubyte] (nested_flatbuffer: "T"); }\nroot_type T;\n')
+    open(os.path.join(d, "prog.c"), "w").write(NESTED_RAW_C)
+    rc, out, err = sh([flatcc, "-a", "--json", "-o", d, os.path.join(d, "nr.fbs")])
+    if rc != 0: raise BuildError("flatcc rejects the nested-raw schema: " + (out + err)[-300:])
+    exe = build_harness(ctx, "nraw_prog", [os.path.join(d, "prog.c")], rt, incs=[d], flags=["-O1", "-g", "-w", "-fsanitize=address", "-fno-omit-frame-pointer"])
+    rc, out, err = sh([exe], timeout=60, env=ASAN_ENV)
+    lines = [l for l in out.split("\n") if l]
+    crashed = rc != 0 or len(lines) != 5
+    return [l for l in lines if "pok" in l and "verify=0" not in l], crashed, (out + err)[-600:]
+
+
+def is_nested_raw(fbs, text):
+    """the failing text gives a nested_flatbuffer field of the schema as a JSON array"""
+    for name in re.findall(r"(f\d+x):\[ubyte\] \(id: \d+, nested_flatbuffer", fbs):
+        if re.search(r'"?%s"?\s*:\s*\[' % name, text): return True
+    return False
+
+
 def run(ctx):
     ths, results = c05.run(ctx, mutate=make_mutate(ctx.quick()), judge_extra=True)
     jcov = jscan_stage(ctx, ths)
@@ -160,8 +254,9 @@ def run(ctx):
     sa_stats, sa_bad = sarr.stage(ctx, os.path.join(ctx.work, "cc", "flatcc"), sorted(glob.glob(os.path.join(ctx.work, "rtj", "*.o"))), ["-DNDEBUG"])
     bad += sa_bad
     jcov["struct_array_texts"] = sa_stats
-    nmut = nok = nerr = 0
+    nmut = nok = nerr = nbad_more = 0
     errs = {}
+    nested_raw_hits = []
     for res in results:
         if "error" in res:
             bad.append(("generated code unusable: " + res["error"][:300], dict(schema_fbs=res["fbs"]))); continue
@@ -170,36 +265,25 @@ def run(ctx):
             if e and ci < res["ncases"]: bad.append(("generated printer/parser program crashed on the printer's own output", dict(schema_fbs=res["fbs"], case=ci, stderr=e)))
         m = res.get("mut")
         if not m: continue
-        control_dump = None
-        for l, (kind, n), o in zip(m["lines"], m["kinds"], m["out"]):
-            det = dict(schema_fbs=res["fbs"], op=l[:6000], output=o[:1500], text=bytes.fromhex(l.split(" ")[3]).decode("latin1")[:1500] if l.split(" ")[3] != "-" else "")
-            if o.startswith("<crash") or o.startswith("<skipped") or o.startswith("<no-output"):
-                det["stderr"] = m["err"]
-                bad.append(("parser faulted (read outside the given bytes, sanitizer report, or hang) on this input", det)); continue
-            if kind == "control":
-                if not o.startswith("pok verify=0"):
-                    bad.append(("after earlier failed parses the same builder no longer parses a valid text", det))
-                elif control_dump is not None and control_dump[0] == l and control_dump[1] != o:
-                    bad.append(("the same text parses to a different buffer after failed parses", det))
-                control_dump = (l, o)
-                continue
-            nmut += 1
-            if o.startswith("pok"):
-                nok += 1
-                if not o.startswith("pok verify=0"):
-                    bad.append(("parser reports success but the generated verifier rejects the buffer", det))
-            elif o.startswith("perr="):
-                nerr += 1
-                mm = re.match(r"perr=(-?\d+) loc=(-?\d+)", o)
-                e, loc = int(mm.group(1)), int(mm.group(2))
-                errs[e] = errs.get(e, 0) + 1
-                if e == 0: bad.append(("parser returns failure without an error code", det))
-                if not (0 <= loc <= n): bad.append(("reported error location %d lies outside the input of %d bytes" % (loc, n), det))
-            else:
-                bad.append(("unexpected harness output", det))
+        nmut += m["nmut"]; nok += m["nok"]; nerr += m["nerr"]; nbad_more += m["nbad"] - len(m["bad"])
+        for e, k in m["errs"].items(): errs[e] = errs.get(e, 0) + k
+        for why, det in m["bad"]:
+            det["schema_fbs"] = res["fbs"]
+            if why.startswith("parser reports success but the generated verifier rejects") and is_nested_raw(res["fbs"], det.get("text", "")):
+                nested_raw_hits.append((why, det))
+            else: bad.append((why, det))
+    # known finding: nested_flatbuffer fields given as raw byte arrays are stored unverified
+    nr_lines, nr_crashed, nr_out = nested_raw_stage(ctx, os.path.join(ctx.work, "cc", "flatcc"), sorted(glob.glob(os.path.join(ctx.work, "rtj", "*.o"))))
+    if nr_crashed: bad.append(("nested-raw scenario crashed: " + nr_out, dict(op="nested_raw_stage")))
+    if nr_lines or nested_raw_hits:
+        if any(f["property"] == "C04" and f["id"] == "nested-flatbuffer-raw-bytes-not-verified" and f["status"] == "known" for f in load_known()):
+            known_finding(ctx, "nested-flatbuffer-raw-bytes-not-verified", "a nested_flatbuffer field given as a plain array of bytes is stored unchecked: the parser reports success and the "
+                          "generated verifier rejects the buffer (fixed cases: %s; mutants this run: %d)" % (",".join(nr_lines)[:80], len(nested_raw_hits)))
+        else:
+            bad += nested_raw_hits + [("parser reports success but the generated verifier rejects the buffer (nested_flatbuffer field given as raw bytes): " + l, dict(op="nested_raw_stage " + l)) for l in nr_lines]
     if bad:
         why, det = min(bad, key=lambda x: len(x[1].get("op", "")) or 10**9)
-        det.update({"kind": "property-fails-on-implementation", "why": why, "count": len(bad)})
+        det.update({"kind": "property-fails-on-implementation", "why": why, "count": len(bad) + nbad_more})
         violation(ctx, "spec_%d.json" % ctx.seed, det)
     ctx.cov.update({
         "evaluations": nmut, "distinct_nontrivial": nmut,
